@@ -387,4 +387,6 @@ class NoLoopFamily(ScenarioFamily):
 
 fam(NoLoopFamily())
 CHECKS['C14'].families.append('noloop')
+CHECKS['C14'].families.append('single')
+CHECKS['C14'].families.append('shapes')
 CHECKS['C14'].floors['c14_noloop_dispatches'] = {'quick': 50, 'thorough': 500}
